@@ -575,6 +575,10 @@ class Client:
         :param authmech: prefered authenticate mechanism
         :rtype: boolean
         """
+        # a new connection is never authenticated yet
+        self.authenticated = False
+        self.__capabilities = {}
+        self.__read_buffer = b""
         try:
             self.sock = socket.create_connection((self.srvaddr, self.srvport))
             self.sock.settimeout(Client.read_timeout)
